@@ -456,3 +456,39 @@ func link(s *Sched, parent context.Context, child *vctx) {
 		s.mu.Unlock()
 	}
 }
+
+// Pool replaces sync.Pool in files instrumented with ":pool": a plain LIFO stack that is emptied when a new execution
+// starts. sync.Pool's contents depend on the P a goroutine happens to run on, on the garbage collector and on earlier
+// executions in the same process, none of which a recorded schedule fixes; with this Pool an object put back is always
+// the next one handed out (the reuse every schedule has to tolerate), and a replay sees the same objects.
+// Only one thread runs at a time under the scheduler, so no locking is needed.
+type Pool struct {
+	New   func() interface{}
+	items []interface{}
+	owner *Sched
+}
+
+func (p *Pool) sync() {
+	if p.owner != S {
+		p.owner, p.items = S, nil
+	}
+}
+
+func (p *Pool) Get() interface{} {
+	p.sync()
+	if n := len(p.items); n > 0 {
+		x := p.items[n-1]
+		p.items[n-1] = nil
+		p.items = p.items[:n-1]
+		return x
+	}
+	if p.New != nil {
+		return p.New()
+	}
+	return nil
+}
+
+func (p *Pool) Put(x interface{}) {
+	p.sync()
+	p.items = append(p.items, x)
+}
